@@ -796,6 +796,32 @@ fn search(n: usize, seed: u64) {
             differential(&mut s, prog, &[b]);
         }
     }
+    // directed: operations with mark-dependent shortcuts on arrays whose rows are sorted
+    // ascending / descending (rank 1-3, so that row order says nothing about later columns)
+    const MARK_SENSITIVE: &[&str] = &[
+        "/↥", "/↧", "\\↥", "\\↧", "≡/↥", "≡/↧", "≡\\↥", "≡\\↧", "/+", "\\+", "⍆", "⍏", "⍖", "⊢⍆", "⊣⍆", "⇌⍆", "◴", "⊛", "⊚=1", "∊⊸⇌", "⊗⊸⇌", "⊢", "⊣", "⊢⇌", "/↥♭", "/↧♭", "⍉",
+    ];
+    for prog in MARK_SENSITIVE {
+        for rank in 1..=3usize {
+            for down in [false, true] {
+                for _ in 0..(n / 4 + 2) {
+                    let shape: Vec<usize> = (0..rank).map(|i| if i == 0 { 2 + r.below(3) } else { 1 + r.below(3) }).collect();
+                    let cnt: usize = shape.iter().product();
+                    let rc = shape[0];
+                    let rl = cnt / rc;
+                    let mut rows: Vec<Vec<f64>> =
+                        (0..rc).map(|_| (0..rl).map(|_| if r.chance(1, 6) { r.below(4) as f64 + 0.5 } else { r.below(6) as f64 }).collect()).collect();
+                    rows.sort_by(|a, b| a.partial_cmp(b).unwrap());
+                    if down {
+                        rows.reverse();
+                    }
+                    let b = num(&shape, &rows.concat());
+                    let b = natural_marks(&mut r, b);
+                    differential(&mut s, prog, &[b]);
+                }
+            }
+        }
+    }
     // dyadic: fixed pairs and n/2+1 random pairs (all 18 x 18 variant pairs each)
     let fb = fixed_bases();
     for prog in DYADIC {
